@@ -4,6 +4,7 @@ package main
 
 import (
 	"fmt"
+	"runtime"
 	"go/token"
 	"go/types"
 	"sort"
@@ -30,6 +31,7 @@ type Job struct {
 	checkOverflow bool
 	localRegex    []*RegexInfo
 	regexUsed     map[string]*RegexInfo
+	concatParts   map[int][]*Term
 
 	// results
 	Obls       []*Obligation
@@ -47,7 +49,7 @@ func jobName(fn *ssa.Function) string {
 }
 
 func (p *Program) newJob(fn *ssa.Function) *Job {
-	return &Job{Name: jobName(fn), fn: fn, contract: p.contractFor(fn), special: map[string]*Val{}, globals: map[string]*Val{}, regexUsed: map[string]*RegexInfo{}}
+	return &Job{Name: jobName(fn), fn: fn, contract: p.contractFor(fn), special: map[string]*Val{}, globals: map[string]*Val{}, regexUsed: map[string]*RegexInfo{}, concatParts: map[int][]*Term{}}
 }
 
 // generate runs the symbolic execution and fills in obligations.
@@ -58,7 +60,9 @@ func (p *Program) generate(j *Job) {
 			if u, ok := r.(unsupported); ok {
 				j.Err = u.msg
 			} else {
-				panic(r)
+				buf := make([]byte, 4096)
+				n := runtime.Stack(buf, false)
+				j.Err = fmt.Sprintf("internal error: %v\n%s", r, buf[:n])
 			}
 		}
 		j.Obls = x.obls
@@ -125,6 +129,27 @@ func (p *Program) generate(j *Job) {
 		}
 	}
 	fr.entry = st.clone()
+	// witness classes of known findings for this function
+	classes := map[string]*Term{}
+	for _, f := range allFindings {
+		if f.Status == "open" && f.Class != "" && strings.HasPrefix(f.Obligation, j.Name+"#") {
+			e, err := parserParseExpr(f.Class)
+			if err != nil {
+				unsupportedf("known finding %s: cannot parse class %q", f.Obligation, f.Class)
+			}
+			ev := &evaluator{x: x, fr: fr, st: st, lets: map[string]*Val{}}
+			classes[f.Obligation] = ev.eval(e).T
+		}
+	}
+	defer func() {
+		for _, o := range x.obls {
+			if c, ok := classes[o.Name]; ok && o.Status == "" {
+				x.obls = append(x.obls, &Obligation{Name: o.Name + "!outside-known-class", Kind: "known-excl", Job: o.Job, NFact: o.NFact,
+					PC: And(o.PC, Not(c)), Goal: o.Goal, Pos: o.Pos, Note: o.Note})
+			}
+		}
+		j.Obls = x.obls
+	}()
 	rv, rs := x.run(fr, st.clone())
 	if rs == nil {
 		return
@@ -168,6 +193,16 @@ func (x *Exec) freeVarInput(st *State, fv *ssa.FreeVar) *Val {
 	}
 	ref := x.freshVal(st, "free."+fv.Name(), t)
 	return &Val{Typ: t, Ptr: &Pointer{kind: pkCell, ref: ref.T, objT: pt.Elem(), cell: name}}
+}
+
+// exclOf returns the companion obligation "o fails outside the known witness class", if any.
+func (j *Job) exclOf(o *Obligation) *Obligation {
+	for _, e := range j.Obls {
+		if e.Kind == "known-excl" && e.Name == o.Name+"!outside-known-class" {
+			return e
+		}
+	}
+	return nil
 }
 
 func (j *Job) summary() string {
